@@ -1369,8 +1369,11 @@ namespace jsoncons {
             }
             else if (is_primitive_storage(other.storage_kind()))
             {
+                // other may be an element or member of *this (a = a[0]): take its bytes before *this is destroyed
+                alignas(basic_json) unsigned char temp[sizeof(basic_json)];
+                std::memcpy(static_cast<void*>(temp), &other, sizeof(basic_json));
                 destroy();
-                std::memcpy(static_cast<void*>(this), &other, sizeof(basic_json));
+                std::memcpy(static_cast<void*>(this), temp, sizeof(basic_json));
             }
             else if (storage_kind() == other.storage_kind())
             {
@@ -1391,11 +1394,20 @@ namespace jsoncons {
                         break;
                     }
                     case json_storage_kind::array:
-                        cast<array_storage>().assign(other.cast<array_storage>());
+                    {
+                        // other may be an element of *this (a = a[1]): copy first, then swap
+                        auto alloc = cast<array_storage>().get_allocator();
+                        basic_json temp(other, alloc);
+                        swap(temp);
                         break;
+                    }
                     case json_storage_kind::object:
-                        cast<object_storage>().assign(other.cast<object_storage>());
+                    {
+                        auto alloc = cast<object_storage>().get_allocator();
+                        basic_json temp(other, alloc);
+                        swap(temp);
                         break;
+                    }
                     default:
                         JSONCONS_UNREACHABLE();
                         break;
